@@ -22,9 +22,15 @@ OnPositions(r) == \A a \in DOMAIN r.sig.ins : \A k \in DOMAIN r.sig.ins[a] :
    LET ax == AxisOf(r.grid, r.axis[a][k]) IN
    HasKey(ax.pos, r.sig.ins[a][k][2]) /\ DimOfPos(ax, r.sig.ins[a][k][2]) \in SeqToSet(r.inputs[a].dims)
 
+\* ... and carry no second dimension of an axis the signature names for them
+TwoDimsOfAnAxis(r) == \E a \in DOMAIN r.sig.ins : \E k \in DOMAIN r.sig.ins[a] :
+   LET ax == AxisOf(r.grid, r.axis[a][k]) IN
+   Cardinality({j \in DOMAIN ax.pos : ax.pos[j][2] \in SeqToSet(r.inputs[a].dims)}) > 1
+
 VCall(r) ==
   IF ~BindingOK(r.sig.ins, r.axis) \/ Len(r.inputs) # Len(r.sig.ins) THEN (IF r.out.k = "results" THEN "accepted-arity-mismatch" ELSE "ok")
   ELSE IF ~OnPositions(r) THEN (IF r.out.k = "results" THEN "accepted-input-on-wrong-position" ELSE "ok")
+  ELSE IF TwoDimsOfAnAxis(r) THEN (IF r.out.k = "results" THEN "accepted-input-with-two-dimensions-of-an-axis" ELSE "ok")
   ELSE IF r.out.k # "results" THEN "raised-on-valid-call"
   ELSE LET rules == RulesFor(r)
            ws == Widths(r)
